@@ -953,7 +953,10 @@ func (r *runner) preSweep(n int, ts uint32) *pbt.Violation {
 	}
 	time.Sleep(time.Millisecond)
 	for i, a := range all {
-		if a.conn.PeerGone() || (a.rc != nil && a.rc.Ended()) {
+		if a.rc != nil && a.rc.Err() != nil {
+			return pbt.V("S3/framing/"+a.kind(), "consumer %d: %v", i, a.rc.Err())
+		}
+		if a.conn.PeerGone() {
 			return pbt.V("S4/healthy-consumer-swept/"+a.kind(), "consumer %d (%s, second stream: %v), which reads everything and had been written to since the previous sweep, was disconnected by liveness sweep %d", i, a.kind(), a.second, r.ticks)
 		}
 	}
